@@ -22,6 +22,7 @@ RULE = (
     "code, or out of .py_func with the real argument vectors, is an out-of-bounds read. (e2e) identical cards are executed in two "
     "processes (JIT on / NUMBA_DISABLE_JIT=1) and all tensors compared with rtol 1e-9/1e-7/1e-6/1e-4 by order plus 5x the quadrature error the code reports for the entry. "
     "Distinct = dispatcher (diff/bounds) or configuration cell (e2e); non-trivial = compiled and interpreted values were both obtained and compared."
+    " End-to-end lattice: one small NLO card per (scheme, process, kind, heavyness) cell in both execution modes, any exception type being an outcome that must agree. Special functions are sampled on their whole real domain. Thorough tier: sixteen small cards run under valgrind memcheck (partial-loads-ok=no); a report counts only when the faulting instruction is in JIT-emitted code."
 )
 ASSUMPTIONS = ["numba's interpreter fallback (.py_func) is the reference semantics; callees of a kernel stay compiled when it is run through py_func",
                "NUMBA_BOUNDSCHECK=1 instruments every array access of the compiled kernels"]  # fmt: skip
